@@ -39,6 +39,9 @@ func tagged(t *core.Tape, id, dir string, i int) []byte {
 func genC13(t *core.Tape, tier string) *Scenario {
 	sc := &Scenario{Prop: "C13", Notes: map[string]int{}}
 	sc.PoolFIFO = t.Bool(1, 5, "poolfifo")
+	if t.Bool(1, 6, "pooldrop") {
+		sc.PoolDrop = uint32(1 + t.Choose(1<<20, "pooldrop.seed"))
+	}
 	sc.AlgoYield = t.Bool(1, 2, "algo.yield")
 	h := genHandlerCfg(t)
 	// a read limit far above every payload bounds the damage of a misframed
